@@ -786,3 +786,100 @@ mod tests {
         }
     }
 }
+
+//------------ Verification hooks (off by default) ---------------------------
+
+/// Add-only access for the external verification harness (feature
+/// `verif-hooks`, area BgpIn): starts the real `BgpTcpInRunner::run` with
+/// the real `StandardTcpListenerFactory` and the real `ConfigAcceptor`
+/// (exactly the call `BgpTcpIn::run` makes), on a register and a gate the
+/// harness owns, and exposes the `live_sessions` table and the real
+/// `PeerConfigs::get`. Nothing here has behaviour of its own.
+#[cfg(feature = "verif-hooks")]
+pub mod verif_hooks_bgpin {
+    use super::*;
+    use crate::comms::{GateAgent, Link};
+
+    pub struct BgpInUnit {
+        pub agent: GateAgent,
+        pub live_sessions: Arc<Mutex<LiveSessions>>,
+        pub ingresses: Arc<ingress::Register>,
+        pub task: tokio::task::JoinHandle<Result<(), Terminated>>,
+    }
+
+    /// A `BgpTcpIn` from the TOML of a `bgp-tcp-in` unit (without `type`).
+    pub fn parse_unit(toml_str: &str) -> Result<BgpTcpIn, String> {
+        toml::from_str::<BgpTcpIn>(toml_str).map_err(|e| e.to_string())
+    }
+
+    /// `PeerConfigs::get`: the matched key (as `Debug` text) and the name of
+    /// the matched peer config.
+    pub fn peer_match(
+        unit: &BgpTcpIn,
+        addr: IpAddr,
+    ) -> Option<(String, String)> {
+        unit.peer_configs
+            .get(addr)
+            .map(|(k, c)| (format!("{:?}", k), c.name().clone()))
+    }
+
+    /// Must be called inside a tokio runtime. Returns the running unit and a
+    /// link to its gate (not yet connected).
+    pub fn start(
+        unit: BgpTcpIn,
+        ingresses: Arc<ingress::Register>,
+    ) -> (BgpInUnit, Link) {
+        let (gate, mut agent) = Gate::new(0);
+        let link = agent.create_link();
+        let metrics = Arc::new(BgpTcpInMetrics::new(&gate));
+        let status_reporter = Arc::new(BgpTcpInStatusReporter::new(
+            "verif-bgp-in",
+            metrics.clone(),
+        ));
+        let runner = BgpTcpInRunner::new(
+            unit,
+            gate,
+            metrics,
+            status_reporter,
+            None,
+            ingresses.clone(),
+        );
+        let live_sessions = runner.live_sessions.clone();
+        let task = crate::tokio::spawn("verif-bgp-in", async move {
+            runner
+                .run::<_, _, StandardTcpStream, BgpTcpInRunner>(
+                    Vec::new(),
+                    Arc::new(StandardTcpListenerFactory),
+                )
+                .await
+        });
+        (BgpInUnit { agent, live_sessions, ingresses, task }, link)
+    }
+
+    impl BgpInUnit {
+        /// The keys of `live_sessions`, sorted.
+        pub fn live_keys(&self) -> Vec<(IpAddr, u32)> {
+            let mut v: Vec<(IpAddr, u32)> = self
+                .live_sessions
+                .lock()
+                .unwrap()
+                .keys()
+                .map(|(a, n)| (*a, n.into_u32()))
+                .collect();
+            v.sort();
+            v
+        }
+
+        /// `GateAgent::reconfigure` with a new `BgpTcpIn` and a new gate.
+        pub async fn reconfigure(
+            &self,
+            new_unit: BgpTcpIn,
+        ) -> Result<GateAgent, String> {
+            let (new_gate, new_agent) = Gate::new(0);
+            self.agent
+                .reconfigure(Unit::BgpTcpIn(new_unit), new_gate)
+                .await?;
+            Ok(new_agent)
+        }
+    }
+}
